@@ -91,7 +91,9 @@ pub fn stream(rng: &mut Rng, len: usize, class: &str) -> Vec<f64> {
 		// very small units (absolute thresholds such as `> EPSILON` in place of `!= 0` show here), optionally after an
 		// ordinary-scale prefix
 		"tiny" => {
-			let s = *rng.pick(&[1e-21, 8.470329472543003e-22, 1e-17, 1e-30]);
+			// single precision: keep squares and products of three values inside the normal range (no underflow: §3.2)
+			let f32_build = std::mem::size_of::<yata::core::ValueType>() == 4;
+			let s = if f32_build { *rng.pick(&[1e-12, 8.470329472543003e-13, 1e-9, 1e-11]) } else { *rng.pick(&[1e-21, 8.470329472543003e-22, 1e-17, 1e-30]) };
 			let c = *rng.pick(&[0.0, 1.0, 5.0]);
 			let prefix = if rng.chance(1, 3) { len / 4 } else { 0 };
 			let mut x = c;
